@@ -137,6 +137,9 @@ type Gen struct {
 	gids        []string
 	modLocs     []modLoc
 	modLocsDone bool
+	recording  map[string]bool
+	opaqueDefs map[string]string // opaque pure func -> definitional axiom
+	revealed   map[string]bool
 	inlineDepth int
 }
 
@@ -178,6 +181,13 @@ func (g *Gen) reset() {
 	g.decHead = map[string]string{}
 	g.gids = nil
 	g.modLocs, g.modLocsDone = nil, false
+	g.opaqueDefs = map[string]string{}
+	g.revealed = map[string]bool{}
+	if g.fc != nil {
+		for _, r := range g.fc.Reveal {
+			g.revealed[r] = true
+		}
+	}
 }
 
 func (g *Gen) errorf(f string, a ...any) {
@@ -462,6 +472,9 @@ func (g *Gen) keyDecl(key, sort string) {
 func isLocalKey(k string) bool { return strings.HasPrefix(k, "L:") }
 
 func (g *Gen) get(st *State, key string) string {
+	if g.recording != nil {
+		g.recording[key] = true
+	}
 	if v, ok := st.m[key]; ok {
 		return v
 	}
@@ -517,6 +530,14 @@ func (g *Gen) resolve(b *Base, key string) string {
 }
 
 func (g *Gen) set(key, v string) {
+	if strings.HasPrefix(v, "(") && !isLocalKey(key) {
+		// name every new heap version: keeps queries small and gives the solver atoms to match on
+		if srt, ok := g.keySort[key]; ok {
+			n := g.fresh(key, srt)
+			g.assume(app("=", n, v))
+			v = n
+		}
+	}
 	g.st.m[key] = v
 	if g.cur != nil {
 		w := g.written[g.cur]
